@@ -7,7 +7,7 @@ import z3
 
 from symx.api import Harness, Raised, register
 
-from .common import declare_cells, declare_edges, getcell, nested, product_indices, zsum
+from .common import _edges, declare_cells, declare_edges, getcell, nested, product_indices, zsum
 
 DERIV_1D = ["copy", "add", "mul", "div", "normalize", "merge", "slice", "mask", "idxarray", "json", "sum1", "sub"]
 DERIV_2D = ["copy", "add", "mul", "T", "partial", "accumulate", "projection", "select_int", "select_slice", "merge", "json"]
@@ -18,7 +18,7 @@ def full(E, h):
     """Everything a histogram reports (world-agnostic)."""
     one = h.ndim == 1
     bins = [h.bins.tolist()] if one else [b.tolist() for b in h.bins]
-    d = {"freq": h.frequencies.tolist(), "err2": h.errors2.tolist(), "missed": h._missed.tolist(), "dtype": str(h.dtype), "fdtype": str(h.frequencies.dtype),
+    d = {"geom": "nd", "edges": [_edges(E, b) for b in h._binnings], "freq": h.frequencies.tolist(), "err2": h.errors2.tolist(), "missed": h._missed.tolist(), "dtype": str(h.dtype), "fdtype": str(h.frequencies.dtype),
          "bins": bins, "name": h.name, "title": h.title, "axis_names": list(h.axis_names), "meta_keys": sorted(h.meta_data.keys()), "custom": h.meta_data.get("custom"),
          "adaptive": h.is_adaptive(), "cls": type(h).__name__, "shape": [int(s) if isinstance(s, int) else s for s in h.shape],
          "fshape": list(h.frequencies.shape), "eshape": list(h.errors2.shape), "keep_missed": h.keep_missed}
